@@ -195,8 +195,10 @@ def main(argv=None):
         "coverage": cov, "assumptions": list(getattr(mod, "ASSUMPTIONS", [])),
         "wall_s": round(wall, 2), "violations": len(lines),
     }
-    os.makedirs(os.path.join(ROOT, "evidence"), exist_ok=True)
-    evpath = os.path.join(ROOT, "evidence", prop + ".json")
+    # evidence/ only ever describes runs against /repo itself; development runs against a scratch tree go elsewhere
+    evdir = os.path.join(ROOT, ".work", "evidence_scratch_tree") if os.environ.get("VERIF_REPO_SRC") else os.path.join(ROOT, "evidence")
+    os.makedirs(evdir, exist_ok=True)
+    evpath = os.path.join(evdir, prop + ".json")
     validate_evidence(ev)
     with open(evpath, "w") as f:
         json.dump(ev, f, indent=1, sort_keys=True)
